@@ -38,7 +38,7 @@ func isFailure(class string) bool {
 
 type stageResult struct {
 	class  string
-	site   string // panics: first acmelib frame + panic kind; BADPOS: nofile|outside|notokenstart
+	site   string // panics: first acmelib frame + panic kind; BADPOS: nofile|outside|notokenstart|noposition
 	detail string
 	stack  string
 }
@@ -112,9 +112,15 @@ func panicResult(r any, stack []byte) stageResult {
 }
 
 // classifyErr sorts an error of dbc.Parse / ImportDBCFile and checks the position of syntax errors.
-func classifyErr(filename string, text []byte, err error) stageResult {
+// parseStage: the error comes from dbc.Parse itself; there EVERY error must have the documented
+// syntax-error shape ("syntax error at <file>:<line>:<col>; ..."): the property says a syntax error
+// names file, line and column, and the parser has no other kind of error to report for a text.
+func classifyErr(filename string, text []byte, err error, parseStage bool) stageResult {
 	o := dbccase.ClassifyErr(filename, err)
 	if o.Class != "syn" {
+		if parseStage {
+			return stageResult{class: clsBadPos, site: "noposition", detail: oneLine(err.Error(), 200)}
+		}
 		return stageResult{class: clsOther, detail: oneLine(err.Error(), 200)}
 	}
 	if !o.NamesFile {
@@ -149,7 +155,7 @@ func runParse(filename string, text []byte) (dbccase.Outcome, stageResult) {
 	case "ok":
 		return o, stageResult{class: clsOK}
 	case "syn", "other":
-		return o, classifyErr(filename, text, o.Err)
+		return o, classifyErr(filename, text, o.Err, true)
 	}
 	res := parseWithStack(filename, text, false)
 	if res.class != clsPanic { // not reproduced: keep the text ParseSafe recorded
@@ -168,7 +174,7 @@ func runParseHex(filename string, text []byte) stageResult {
 	case "ok":
 		return stageResult{class: clsOK}
 	case "syn", "other":
-		res = classifyErr(filename, text, o.Err)
+		res = classifyErr(filename, text, o.Err, true)
 	default:
 		res = parseWithStack(filename, text, true)
 		if res.class != clsPanic {
@@ -191,7 +197,7 @@ func runImport(filename string, text []byte) (res stageResult) {
 	if err == nil {
 		return stageResult{class: clsOK}
 	}
-	return classifyErr(filename, text, err)
+	return classifyErr(filename, text, err, false)
 }
 
 // emitRecord writes the record of one input; a panic inside EmitCase (scanner hook, projection,
